@@ -713,6 +713,9 @@ class C13(Prop):
       hv = to_pg(case['tmpl'])
     except (TypeError, ValueError, KeyError) as e:
       return {'construct': err_name(e)}
+    if of_pg(hv) != case['tmpl']:
+      # a typed field converted a constant (int -> float): the JSON no longer describes the value
+      return {'construct': 'coerced'}
     obs = {'unchanged': True, 'notes': []}
     before = pg.to_json_str(hv)
 
